@@ -33,6 +33,101 @@ theorem triple_of_run {x : M α} {P : World → Prop} {Qok : α → World → Pr
   simp only [wp, PredTrans.apply]
   split <;> simp_all
 
+/-! ### `askHook` in terms of `ask`
+
+`askHook r` (the `ask` of the observability call sites) is `ask r` in a world whose next answer has been
+replaced by its silenced form when the C15 twin flag is set.  So every Hoare triple proved for `ask r`
+whose precondition does not depend on the pending answers holds for `askHook r` too. -/
+
+/-- the world as an observability hook's call site sees it -/
+def presil (w : World) : World :=
+  if w.silent then
+    { w with answers := match w.answers with | [] => [] | a :: rest => a.silenced :: rest }
+  else w
+
+@[simp] theorem Ans.silenced_dur (a : Ans) : a.silenced.dur = a.dur := by
+  cases a with
+  | raise e d => by_cases h : e.isException <;> simp [Ans.silenced, Ans.dur, h]
+  | _ => rfl
+
+@[simp] theorem Ans.ite_silenced_dur (b : Bool) (a : Ans) :
+    (if b = true then a.silenced else a).dur = a.dur := by
+  cases b <;> simp
+
+/-- when the (possibly silenced) answer of a hook is a raise, the original answer was that raise -/
+theorem sil_eq_raise (b : Bool) (a : Ans) (e : Exn) (d : Nat) :
+    (if b = true then a.silenced else a) = Ans.raise e d ↔
+      (a = Ans.raise e d ∧ (b = true → e.isException = false)) := by
+  cases b
+  · simp
+  · cases a with
+    | raise e' d' =>
+      by_cases h : e'.isException = true
+      · simp only [Ans.silenced, h, if_true]
+        constructor
+        · intro hh; cases hh
+        · rintro ⟨h1, h2⟩
+          cases h1
+          simp [h] at h2
+      · simp only [Ans.silenced, h, if_true]
+        constructor
+        · intro hh
+          cases hh
+          exact ⟨rfl, fun _ => by simpa using h⟩
+        · rintro ⟨h1, _⟩; exact h1
+    | _ => simp [Ans.silenced]
+
+theorem sil_dur (b : Bool) (a : Ans) (e : Exn) (d : Nat)
+    (h : (if b = true then a.silenced else a) = Ans.raise e d) : a.dur = d := by
+  have := congrArg Ans.dur h
+  rw [Ans.ite_silenced_dur] at this
+  exact this
+
+/-- turn every hypothesis "the (possibly silenced) hook answer is `raise e d`" into "its duration is `d`" -/
+macro "sil_durs" : tactic => `(tactic| repeat (
+  have hsd := sil_dur _ _ _ _ (by assumption)
+  revert hsd
+  clear ‹(if _ = true then Ans.silenced _ else _) = Ans.raise _ _›
+  intro hsd))
+
+theorem askHook_eq (r : Req) (w : World) : askHook r w = ask r (presil w) := by
+  unfold presil
+  by_cases hs : w.silent = true
+  · simp only [hs, if_true]
+    cases ha : w.answers with
+    | nil => simp [askHook, ask, ha, hs, bind, EStateM.bind, get, getThe, MonadStateOf.get, EStateM.get,
+        set, MonadStateOf.set, EStateM.set, throw, throwThe, MonadExceptOf.throw, EStateM.throw]
+    | cons a rest =>
+      simp [askHook, ask, ha, hs, bind, EStateM.bind, get, getThe, MonadStateOf.get, EStateM.get, set,
+        MonadStateOf.set, EStateM.set, throw, throwThe, MonadExceptOf.throw]
+  · have hs' : w.silent = false := by simpa using hs
+    simp only [hs', Bool.false_eq_true, if_false]
+    cases ha : w.answers with
+    | nil => simp [askHook, ask, ha, bind, EStateM.bind, get, getThe, MonadStateOf.get, EStateM.get, set,
+        MonadStateOf.set, EStateM.set, throw, throwThe, MonadExceptOf.throw, EStateM.throw]
+    | cons a rest =>
+      simp [askHook, ask, ha, hs', bind, EStateM.bind, get, getThe, MonadStateOf.get, EStateM.get, set,
+        MonadStateOf.set, EStateM.set, throw, throwThe, MonadExceptOf.throw]
+
+/-- a predicate that holds however the pending answers are replaced holds of `presil w` -/
+theorem presil_cases (C : World → Prop) (w : World) (h : ∀ as, C { w with answers := as }) :
+    C (presil w) := by
+  unfold presil
+  split
+  · exact h _
+  · exact h w.answers
+
+/-- transfer of a triple from `ask r` to `askHook r` -/
+theorem askHook_triple {P : Assertion (.except Exn (.arg World .pure))}
+    {Q : PostCond Ans (.except Exn (.arg World .pure))} (r : Req)
+    (h : ⦃P⦄ ask r ⦃Q⦄) (hp : ∀ w, (P w).down → (P (presil w)).down) : ⦃P⦄ askHook r ⦃Q⦄ := by
+  intro w hw
+  have := h (presil w) (hp w hw)
+  simp only [wp, PredTrans.apply] at this ⊢
+  have e : EStateM.run (askHook r) w = EStateM.run (ask r) (presil w) := askHook_eq r w
+  rw [e]
+  exact this
+
 /-- the world in which a run ends, however it ends -/
 def finalWorld : EStateM.Result Exn World α → World
   | .ok _ w => w
